@@ -404,6 +404,23 @@ def body_circle_orthogonal(case, ctx):
     centre, radius = np.array(centre), np.array(radius)
     ctx.check(centre.shape == shape + (n,), "centre shape", got=centre.shape)
     ctx.check(radius.shape == shape, "radius shape", got=radius.shape)
+    # the object answers for itself also after an image of it has been derived and queried
+    G_ = hyperbolic.Point(np.array([0.3] + [0.1] * (n - 1)), model="klein").origin_to()
+    img = G_ @ obj
+    img.sphere_parameters(model)
+    c_again, r_again = obj.sphere_parameters(model=model)
+    ctx.check(np.array_equal(np.array(c_again), centre, equal_nan=True) and
+              np.array_equal(np.array(r_again), radius, equal_nan=True),
+              "sphere_parameters of the original, asked again after its image was queried, "
+              "are what they were")
+    if n == 2:
+        # positional and keyword arguments mean what the signature says: (degrees, model)
+        cp_kw = obj.circle_parameters(degrees=False, model=model)
+        cp_pos = obj.circle_parameters(False, model)
+        for a_, b_ in zip(cp_kw, cp_pos):
+            ctx.check(np.array_equal(np.array(a_), np.array(b_), equal_nan=True),
+                      "circle_parameters(False, model) = circle_parameters(degrees=False, "
+                      "model=model)")
     for i, idx in enumerate(unit_iter(shape)):
         unit = case["units"][i]
         p, q = np.array(unit["p"], dtype=float), np.array(unit["q"], dtype=float)
